@@ -42,6 +42,7 @@ type c07Scenario struct {
 	redWrites int
 	ctxKind   int // 0 none, 1 cancel, 2 deadline
 	ctxAt     time.Duration
+	nilPanics bool // callbacks that panic do it with a nil value
 }
 
 var c07Entries = [...]string{"MapReduce", "MapReduceVoid", "MapReduceChan", "ForEach", "Finish", "FinishVoid"}
@@ -105,6 +106,9 @@ func c07Gen(r *zsim.Run) c07Scenario {
 		sc.ctxKind = 1 + f.Intn(2)
 		sc.ctxAt = time.Duration(f.Intn(8)) * time.Millisecond
 	}
+	// a panic is a panic whatever its value: recover() hands back nil for panic(nil) under the module's
+	// language version (go 1.19), so code that tells a panic by recover() != nil does not see this one
+	sc.nilPanics = faulty && f.Intn(4) == 3
 	return sc
 }
 
@@ -164,10 +168,17 @@ func (st *c07State) cancelWith(cancel func(error), err error) {
 }
 
 func (st *c07State) raise(val string) {
+	if st.sc.nilPanics {
+		val = "<nil>"
+	}
 	st.panics = append(st.panics, c07Panic{st.r.Seq(), val})
 	st.faulted = true
 	st.r.FaultFired("panic")
 	st.r.Logf("panic %s", val)
+	if st.sc.nilPanics {
+		var none any
+		panic(none)
+	}
 	panic(val)
 }
 
@@ -327,8 +338,9 @@ func c07Run(r *zsim.Run) {
 		didPanic bool
 	)
 	func() {
+		returned := false
 		defer func() {
-			if p := recover(); p != nil {
+			if p := recover(); p != nil || !returned {
 				panicked, didPanic = p, true
 			}
 		}()
@@ -376,6 +388,7 @@ func c07Run(r *zsim.Run) {
 			st.genDone = true
 			FinishVoid(fns...)
 		}
+		returned = true
 	}()
 	retSeq := r.Seq()
 	retAt := r.Now()
